@@ -268,7 +268,8 @@ func mechanismSkeleton(kind, typ, keyPath string) m {
 type optionVariant struct {
 	kind, typ, name string
 	conf            m
-	replace         bool // conf is the whole configuration (not laid over the skeleton)
+	replace         bool   // conf is the whole configuration (not laid over the skeleton)
+	cond            string // the entry's "if"
 }
 
 // optionVariants: settings every loader documents as optional, alone and as partial objects.
@@ -355,6 +356,10 @@ func optionVariants(keyPath string) []optionVariant {
 		{kind: "finalizers", typ: "oauth2_client_credentials", name: "cache_ttl", conf: m{"cache_ttl": "5m"}},
 		{kind: "finalizers", typ: "oauth2_client_credentials", name: "auth_method", conf: m{"auth_method": "request_body"}},
 		{kind: "error_handlers", typ: "www_authenticate", name: "no-config", replace: true},
+		// the documented condition of a catalogue entry, also where the entry needs no config
+		{kind: "error_handlers", typ: "default", name: "if-without-config", replace: true, cond: "type(Error) == authentication_error"},
+		{kind: "error_handlers", typ: "www_authenticate", name: "if-without-config", replace: true, cond: "type(Error) == authentication_error"},
+		{kind: "error_handlers", typ: "redirect", name: "if", cond: "type(Error) == authentication_error"},
 		{kind: "error_handlers", typ: "redirect", name: "code", conf: m{"code": 302}},
 	}
 }
@@ -529,6 +534,10 @@ func Universe(dir string) ([]Item, error) {
 
 		if cfg != nil {
 			mech["config"] = cfg
+		}
+
+		if o.cond != "" {
+			mech["if"] = o.cond
 		}
 
 		items = append(items, Item{
